@@ -98,6 +98,8 @@ def _build_frame(fs):
         # datagram, of which only the beginning is here
         l4 = F.udp(sip, dip, fs["sport"], fs["dport"],
                    pay + bytes(fs["fragcut"]))[:len(l4)]
+      if fs.get("nosum") and len(l4) >= 8:
+        l4 = l4[:6] + b"\0\0" + l4[8:]
       proto = 17
     elif k == "tcp":
       l4 = F.tcp(sip, dip, fs["sport"], fs["dport"], pay,
